@@ -255,6 +255,48 @@ def _skip_scope(ctx: Ctx, mod: Mod, br: ast.AST, var: str):
     return br, var, "is_async"
 
 
+class _Probe:
+    """stands in for the recorder while a rule is run only to learn its verdict"""
+    def __init__(self) -> None:
+        self.fails: List[str] = []
+        self.undec: List[str] = []
+        self.oks = 0
+        self.findings: List[Any] = []
+        self.errors: List[str] = []
+
+    def ok(self, *a, **k) -> None:
+        self.oks += 1
+
+    def fail(self, rule, *a, **k) -> None:
+        self.fails.append(rule)
+
+    def undecided(self, rule, msg="", *a, **k) -> None:
+        self.undec.append(msg)
+
+    def saw(self, *a, **k) -> None:
+        pass
+
+    note = expect_min = positive_example = saw
+
+
+def _opc3c_all_ok(ctx: Ctx) -> Optional[int]:
+    """number of prologue layouts OPC-3c evaluates, if it evaluates all of them and every one is decoded at the right index"""
+    c = getattr(ctx, "_opc3c_ok", "unset")
+    if c != "unset":
+        return c
+    R0, pr = ctx.R, _Probe()
+    ctx.R = pr
+    try:
+        opc3c_prologue_eval(ctx)
+        res = pr.oks if not pr.fails and not pr.undec and pr.oks else None
+    except Exception:
+        res = None
+    finally:
+        ctx.R = R0
+    ctx._opc3c_ok = res
+    return res
+
+
 def opc3_prologue(ctx: Ctx) -> None:
     mod = ctx.P.mod("_lowlevel")
     fn = mod.fn("analyze_with_blocks")
@@ -298,8 +340,14 @@ def opc3_prologue(ctx: Ctx) -> None:
                 incs = []
                 br_ = br
                 br = scope
+                unknown = None
                 for st in ast.walk(scope):
                     if isinstance(st, ast.Assign) and isinstance(st.targets[0], ast.Name) and st.targets[0].id == var:
+                        gs0 = [eval_guard(ctx, g, v, env) if pol else _neg(eval_guard(ctx, g, v, env)) for g, pol in guards_of(mod, st, br)]
+                        if any(g is False for g in gs0):
+                            continue      # an assignment on a path this interpreter / kind does not take
+                        if not all(g is True for g in gs0):
+                            unknown = f"`{norm(st)}` is assigned under a condition that is not a version / kind test"
                         val = st.value
                         if isinstance(val, ast.IfExp):
                             c = eval_guard(ctx, val.test, v, env)
@@ -315,9 +363,18 @@ def opc3_prologue(ctx: Ctx) -> None:
                         if any(g is False for g in gs):
                             continue
                         if all(g is True for g in gs):
-                            incs.append(ast.literal_eval(st.value))
+                            try:
+                                incs.append(ast.literal_eval(st.value))
+                            except Exception:
+                                unknown = f"the increment `{norm(st)}` is not a literal"
                         # data-dependent increments are the fillers of OPC-3b
                 br = br_
+                if unknown is not None:
+                    if _opc3c_all_ok(ctx):
+                        ctx.R.ok("OPC-3", f"{v}/{kind}: not applied to this shape ({unknown[:80]})", "deferred to OPC-3c: the loop body evaluated on every prologue layout of every interpreter decodes the target at the right index")
+                    else:
+                        ctx.R.undecided("OPC-3", f"{v}/{kind}: {unknown} (see OPC-3c, which evaluates the loop body)")
+                    continue
                 if got is None:
                     ctx.R.undecided("OPC-3", f"{v}/{kind}: no literal initial assignment of {var}")
                     continue
@@ -723,15 +780,36 @@ def exi2_consumers(ctx: Ctx) -> None:
     # EXI-2b: the fix-up takes the *first* positional argument of next_inner
     m = ctx.P.mod("_lowlevel")
     fn = m.fn("contexts_active_in_frame")
+    # `a, _, _, l = inspect.getargvalues(f)` is the record `args = inspect.getargvalues(f)` read as args.args / args.locals
+    unpack: Dict[str, str] = {}
+    for a_ in ast.walk(fn):
+        if isinstance(a_, ast.Assign) and len(a_.targets) == 1 and isinstance(a_.targets[0], ast.Tuple) and len(a_.targets[0].elts) == 4 and all(isinstance(e_, ast.Name) for e_ in a_.targets[0].elts) \
+                and isinstance(a_.value, ast.Call) and norm(a_.value.func) == "inspect.getargvalues":
+            for e_, fld in zip(a_.targets[0].elts, ("args", "varargs", "keywords", "locals")):
+                if e_.id != "_" and sum(1 for w_ in ast.walk(fn) if isinstance(w_, ast.Name) and w_.id == e_.id and isinstance(w_.ctx, ast.Store)) == 1:
+                    unpack[e_.id] = f"args.{fld}"
+
+    def canon(e: ast.AST) -> ast.AST:
+        if not unpack:
+            return e
+        import copy as _copy
+
+        class U(ast.NodeTransformer):
+            def visit_Name(self, n_: ast.Name):
+                if n_.id in unpack and isinstance(n_.ctx, ast.Load):
+                    return ast.copy_location(ast.Attribute(value=ast.Name(id="args", ctx=ast.Load()), attr=unpack[n_.id].split(".")[1], ctx=ast.Load()), n_)
+                return n_
+        return U().visit(_copy.deepcopy(e))
     for n in ast.walk(fn):
         if isinstance(n, ast.Assign) and isinstance(n.targets[0], ast.Attribute) and n.targets[0].attr == "obj":
-            v = norm(n.value)
+            v = norm(canon(n.value))
             if v == "args.locals[args.args[0]]":
                 ctx.R.ok("EXI-2", "obj fix-up reads the first positional argument (self) of the next inner frame")
             else:
                 ctx.R.fail("EXI-2", m, n, "obj of the exiting context must be the first argument (self) of the __exit__ frame")
             # guarded by exactly `ret and ret[-1].is_exiting and next_inner is not None` (and the callee having a first argument)
             gs = guards_of(m, n, fn)
+            gs = [(canon(gx), pol) for gx, pol in gs]
             conj = ast.BoolOp(op=ast.And(), values=[gx if pol else ast.UnaryOp(op=ast.Not(), operand=gx) for gx, pol in gs]) if len(gs) > 1 else (gs[0][0] if gs else ast.Constant(value=True))
             atoms = ["ret", "ret[-1].is_exiting", "next_inner is None", "args.args"]
             from ..util import equivalent
@@ -1055,6 +1133,10 @@ def line1(ctx: Ctx) -> None:
                   and any(x is y for b in br.body for y in ast.walk(b))]
         if stores and all(isinstance(x.value, ast.Call) and norm(x.value.func) == "Context" for x in stores) and all(norm(x.targets[0].slice) == "cleanup_offset" for x in stores):
             ctx.R.ok("LINE-1", f"branch {names}: with_block_info[cleanup_offset] = Context(...)")
+        elif not stores and br.body and (lambda g_, all_st: bool(all_st) and g_.all_paths_pass(g_.node_of(br.body[0]), {g_.node_of(loop).idx, g_.exit.idx}, {g_.node_of(x).idx for x in all_st}))(
+                ctx.cfg(fn), [x for x in ast.walk(loop) if isinstance(x, ast.Assign) and isinstance(x.targets[0], ast.Subscript) and norm(x.targets[0].value) == "with_block_info"
+                              and isinstance(x.value, ast.Call) and norm(x.value.func) == "Context" and norm(x.targets[0].slice) == "cleanup_offset"]):
+            ctx.R.ok("LINE-1", f"branch {names}: every path from it to the next instruction passes with_block_info[cleanup_offset] = Context(...) (shared tail)")
         elif not stores:
             ctx.R.fail("LINE-1", mod, br, f"the branch handling {names} never records a Context in with_block_info: no with block is recognised on the interpreters that use these opcodes",
                        construct=f"branch {names}: no with_block_info store")
@@ -1064,19 +1146,38 @@ def fall1(ctx: Ctx) -> None:
     mod = ctx.P.mod("_lowlevel")
     fn = mod.fn("_contexts_active_by_trickery")
     found = False
-    for n in ast.walk(fn):
-        if isinstance(n, ast.Assign) and isinstance(n.value, ast.Call) and norm(n.value.func) == "replace" \
-                and any(k.arg == "varname" for k in n.value.keywords):
+    for c_ in ast.walk(fn):
+        if isinstance(c_, ast.Call) and norm(c_.func) == "replace" and c_.args \
+                and any(k.arg == "varname" for k in c_.keywords):
             found = True
-            kwv = [k for k in n.value.keywords if k.arg == "varname"][0]
+            n = c_
+            kwv = [k for k in c_.keywords if k.arg == "varname"][0]
             gs = guards_of(mod, n, fn)
             conj: List[str] = []
+            def _negnone(d_: ast.AST) -> Optional[str]:
+                if isinstance(d_, ast.Compare) and len(d_.ops) == 1 and isinstance(d_.ops[0], (ast.Is, ast.IsNot)) and isinstance(d_.comparators[0], ast.Constant) and d_.comparators[0].value is None:
+                    return f"{norm(d_.left)} {'is not' if isinstance(d_.ops[0], ast.Is) else 'is'} None"
+                return None
             for g, pol in gs:
                 if pol and isinstance(g, ast.BoolOp) and isinstance(g.op, ast.And):
                     conj += [norm(x) for x in g.values]
                 elif pol:
                     conj.append(norm(g))
-            t = norm(n.value.args[0])
+                else:
+                    # not (A or B)  ==  not A and not B
+                    conj += [x for x in (_negnone(d_) for d_ in (g.values if isinstance(g, ast.BoolOp) and isinstance(g.op, ast.Or) else [g])) if x]
+            # early returns before the statement: `if A or B: return <unchanged>` contributes not A, not B
+            st_ = n
+            while not isinstance(st_, ast.stmt):
+                st_ = mod.parent_of(st_)
+            par_ = mod.parent_of(st_)
+            sibs = getattr(par_, "body", []) if st_ in getattr(par_, "body", []) else []
+            for sb in sibs[:sibs.index(st_)] if sibs else []:
+                if isinstance(sb, ast.If) and not sb.orelse and sb.body and isinstance(sb.body[-1], (ast.Return, ast.Continue)):
+                    for d_ in (sb.test.values if isinstance(sb.test, ast.BoolOp) and isinstance(sb.test.op, ast.Or) else [sb.test]):
+                        if isinstance(d_, ast.Compare) and len(d_.ops) == 1 and isinstance(d_.ops[0], (ast.Is, ast.IsNot)) and isinstance(d_.comparators[0], ast.Constant) and d_.comparators[0].value is None:
+                            conj.append(f"{norm(d_.left)} {'is not' if isinstance(d_.ops[0], ast.Is) else 'is'} None")
+            t = norm(c_.args[0])
             if f"{t}.varname is None" in conj and f"{t}.obj is not None" in conj:
                 ctx.R.ok("FALL-1", "local-name fallback only for entries with obj is not None and varname is None")
             else:
@@ -1332,6 +1433,7 @@ def opc3c_prologue_eval(ctx: Ctx) -> None:
                         env = {"sys": NS(version_info=vi, implementation=NS(name="cpython")), "insns": insns, ivar: idx, nvar: insns[idx], "start_to_handler": [0] * (2 * len(names) + 2),
                                "with_block_info": [0] * (4 * len(names) + 4), "current_line": -1, "code": NS()}
                         m = Mini(env, dict(helpers), {"describe_assignment_target": stop, "len": len})
+                        _module_prelude(m, mod)
                         got = None
                         try:
                             for st in loop.body:
@@ -1661,6 +1763,31 @@ def opc14_async_position_310(ctx: Ctx) -> None:
     ctx.R.ok("OPC-14", f"3.9 / 3.10: is_async iff YIELD_FROM here or next; one step back iff here ({len(rows)} combinations)")
 
 
+def _module_prelude(m, mod: Mod) -> None:
+    """give an evaluator the module-level constants a function may name: plain `NAME = <value>` statements, also inside the arm
+    of a module-level `if sys.version_info ...:` that the evaluator's sys.version_info selects (definitions in those arms are
+    left alone).  What cannot be evaluated is skipped: a function that needs it is then outside the fragment (undecided), never
+    mis-evaluated"""
+    from ..minieval import Raised, Unsupported
+
+    def run(stmts) -> None:
+        for a_ in stmts:
+            if isinstance(a_, (ast.Assign, ast.AnnAssign)) and isinstance(a_.targets[0] if isinstance(a_, ast.Assign) else a_.target, ast.Name) and getattr(a_, "value", None) is not None \
+                    and norm(a_.targets[0] if isinstance(a_, ast.Assign) else a_.target) not in fixed:
+                try:
+                    m.stmt(a_)
+                except (Unsupported, Raised, Exception):
+                    pass
+            elif isinstance(a_, ast.If) and "sys.version_info" in norm(a_.test) and "sys" in m.env:
+                try:
+                    t_ = m.truth(m.expr(a_.test))
+                except (Unsupported, Raised, Exception):
+                    continue
+                run(a_.body if t_ else a_.orelse)
+    fixed = set(m.env)
+    run(mod.tree.body)
+
+
 def opc15_exit_sites(ctx: Ctx) -> None:
     """OPC-15 which with-block a normal-path __exit__ / __aexit__ call belongs to, on CPython 3.11+.  FACTS (exit_sites): for 19
     single-with function shapes per interpreter (body falling off its end, return, break / continue, and bodies *ending* in a
@@ -1683,9 +1810,27 @@ def opc15_exit_sites(ctx: Ctx) -> None:
         for name, sh in sorted(shapes.items()):
             if not sh["sites"]:
                 continue
-            for site in sh["sites"]:
+            # the exception route: the frame is at the handler's WITH_EXCEPT_START (for an async with: in the await that follows it).
+            # Ground truth by construction: the handler of a with statement starts PUSH_EXC_INFO; WITH_EXCEPT_START (FACTS with_handler_prefix)
+            cc_ = list(sh["co_code"])
+            exc_sites = []
+            for hd, asy in sorted({(st_["handler"], st_["is_async"]) for st_ in sh["sites"]}):
+                if hd + 3 < len(cc_) and cc_[hd] == omap.get("PUSH_EXC_INFO") and cc_[hd + 2] == omap["WITH_EXCEPT_START"]:
+                    if not asy:
+                        exc_sites.append({"handler": hd, "is_async": False, "exc": [("WITH_EXCEPT_START", hd + 2)]})
+                    elif cc_[hd + 4] == omap["GET_AWAITABLE"]:
+                        ps, q_ = [], hd + 6
+                        while q_ < min(len(cc_), hd + 30) and len(ps) < 2:
+                            if cc_[q_] == omap["SEND"] and not ps:
+                                ps.append(("send after WITH_EXCEPT_START", q_))
+                            elif cc_[q_] == omap["YIELD_VALUE"] and ps:
+                                ps.append(("yield_value after WITH_EXCEPT_START", q_))
+                            q_ += 2
+                        if len(ps) == 2:
+                            exc_sites.append({"handler": hd, "is_async": True, "exc": ps})
+            for site in list(sh["sites"]) + exc_sites:
                 sh = dict(sh, handler=site["handler"], is_async=site["is_async"])
-                positions = [("call", site["call"])] if not sh["is_async"] else [("send", site["send"]), ("yield_value", site["yield_value"])]
+                positions = site["exc"] if "exc" in site else [("call", site["call"])] if not sh["is_async"] else [("send", site["send"]), ("yield_value", site["yield_value"])]
                 for pname, pos in positions:
                     warned: List[str] = []
                     code_obj = NS(co_code=list(sh["co_code"]), co_consts=[None if x else 0 for x in sh["consts_none"]], co_name=name)
@@ -1693,14 +1838,7 @@ def opc15_exit_sites(ctx: Ctx) -> None:
                            "warnings": NS(warn=lambda *a, **k: warned.append("warn")), "InspectionWarning": "InspectionWarning", "types": NS()}
                     ext = {"bytes": lambda x: list(x), "ExitingContext": lambda **k: NS(**k), "_parse_exception_table": lambda c_, _e=sh["entries"]: [tuple(x) for x in _e], "len": len}
                     m = Mini(env, {}, ext, fuel=20000)
-                    # module-level constants the function may name (tables of opcode names and the like); what cannot be evaluated is skipped
-                    for a_ in mod.tree.body:
-                        if isinstance(a_, (ast.Assign, ast.AnnAssign)) and isinstance(a_.targets[0] if isinstance(a_, ast.Assign) else a_.target, ast.Name) and getattr(a_, "value", None) is not None \
-                                and norm(a_.targets[0] if isinstance(a_, ast.Assign) else a_.target) not in env:
-                            try:
-                                m.stmt(a_)
-                            except (Unsupported, Raised, Exception):
-                                pass
+                    _module_prelude(m, mod)
                     res = "fell off"
                     try:
                         for st in fn.body:
@@ -1719,7 +1857,7 @@ def opc15_exit_sites(ctx: Ctx) -> None:
                         ctx.R.ok("OPC-15", f"{v} {name} ({pname} at {pos}): handler {sh['handler']}", "FACTS exit_sites")
                     else:
                         what = f"returns handler offset {got[0]} (is_async={got[1]})" if isinstance(got, tuple) else ("returns None" + (" after a warning" if warned else "") if res is None else str(res))
-                        ctx.R.fail("OPC-15", mod, fn, f"CPython {v}, with-body shape `{name}`, frame inside the normal-path exit call ({pname} at offset {pos}): currently_exiting_context {what}; the with-block's "
+                        ctx.R.fail("OPC-15", mod, fn, f"CPython {v}, with-body shape `{name}`, frame inside the {'exception-route' if 'exc' in site else 'normal-path'} exit call ({pname} at offset {pos}): currently_exiting_context {what}; the with-block's "
                                    f"handler is at {sh['handler']} (is_async={sh['is_async']}): the exiting manager is attributed to the wrong block or lost (KeyError in the trickery path -> InspectionWarning and "
                                    "fallback)", construct=f"{v}: exit site of shape {name} ({pname})")
     if n_ok < 20:
@@ -1752,6 +1890,7 @@ def _sites_310(ctx: Ctx):
                        "warnings": NS(warn=lambda *a, **k: warned.append("warn")), "InspectionWarning": "InspectionWarning", "types": NS()}
                 ext = {"bytes": lambda x: list(x), "ExitingContext": lambda **k: NS(**k), "len": len}
                 m = Mini(env, {}, ext, fuel=400000)
+                _module_prelude(m, mod)
                 res = "fell off"
                 try:
                     for st in fn.body:
@@ -1897,10 +2036,27 @@ def opc11_step_semantics(ctx: Ctx) -> None:
     for h in ast.walk(mod.tree):
         if isinstance(h, ast.FunctionDef) and mod.enclosing_def(h) is None and h.name not in helpers:
             helpers[h.name] = h
+    # literal tables the enclosing function (or the module) declares: the decoder's cases may be keyed by them
+    tables: Dict[str, Any] = {}
+    for st_ in list(mod.tree.body) + list(outer.body):
+        if isinstance(st_, (ast.Assign, ast.AnnAssign)) and getattr(st_, "value", None) is not None:
+            t_ = st_.targets[0] if isinstance(st_, ast.Assign) else st_.target
+            if isinstance(t_, ast.Name) and isinstance(st_.value, (ast.Dict, ast.Tuple, ast.List, ast.Set)):
+                try:
+                    tables[t_.id] = ast.literal_eval(st_.value)
+                except Exception:
+                    pass
+    for n in ast.walk(loop):
+        if isinstance(n, ast.If) and not (n.body and isinstance(n.body[-1], ast.Raise)):
+            for c_ in ast.walk(n.test):
+                if isinstance(c_, ast.Compare) and len(c_.ops) == 1 and isinstance(c_.ops[0], ast.In) and isinstance(c_.left, ast.Attribute) and c_.left.attr == "opname" \
+                        and isinstance(c_.comparators[0], ast.Name) and c_.comparators[0].id in tables:
+                    names.update(k_ for k_ in tables[c_.comparators[0].id] if isinstance(k_, str))
     ue = ctx.F["interp"][sorted(ctx.V.all)[0]]["unpack_ex"]["before1_after2"]
     NAME = ("LOAD_GLOBAL", "LOAD_FAST", "LOAD_NAME", "LOAD_DEREF", "STORE_GLOBAL", "STORE_FAST", "STORE_NAME", "STORE_DEREF", "LOAD_FAST_CHECK", "LOAD_CLASSDEREF", "LOAD_FAST_AND_CLEAR", "LOAD_CLOSURE")
     ATTR = ("LOAD_ATTR", "LOAD_METHOD", "LOOKUP_METHOD", "STORE_ATTR")
     NOP = ("PRECALL", "CACHE", "PUSH_NULL", "EXTENDED_ARG", "NOP", "RESUME")
+    UNARY = {"UNARY_NEGATIVE": "-", "UNARY_INVERT": "~", "UNARY_POSITIVE": "+", "UNARY_NOT": "not "}
     S = ["<s4>", "<s3>", "<s2>", "<s1>"]
 
     def cases(op_: str):
@@ -1930,6 +2086,9 @@ def opc11_step_semantics(ctx: Ctx) -> None:
             yield "drop TOS", dict(argval=None, arg=None, argrepr=""), S, S[:-1]
         elif op_ in NOP:
             yield "no operand effect", dict(argval=None, arg=0, argrepr=""), S, S
+        elif op_ in UNARY:
+            # the operand may be dereferenced / subscripted / called afterwards: only a parenthesised rendering stays the compiled expression
+            yield "unary operator on TOS", dict(argval=None, arg=None, argrepr=""), S, S[:-1] + [f"({UNARY[op_]}<s1>)"]
 
     n_ok = 0
     CALLS = ("CALL_FUNCTION", "CALL_METHOD", "CALL")
@@ -1958,7 +2117,7 @@ def opc11_step_semantics(ctx: Ctx) -> None:
                 return f"<t{counter[0]}>"
             insn = SimpleNamespace(opname=op_, offset=0, starts_line=None, is_jump_target=False, opcode=(ctx.F["interp"][ver_]["opmap"][op_] if ver_ else 0), **fields)
             stack = list(init)
-            env0 = {"insns": [insn, insn], "idx": 0, "insn": insn, "True": True}
+            env0 = dict({k_: (dict(v_) if isinstance(v_, dict) else v_) for k_, v_ in tables.items()}, **{"insns": [insn, insn], "idx": 0, "insn": insn, "True": True})
             if ver_ is not None:
                 eff = ctx.F["interp"][ver_]["call_stack_effects"]
                 omap = ctx.F["interp"][ver_]["opmap"]
@@ -1990,6 +2149,9 @@ def opc11_step_semantics(ctx: Ctx) -> None:
                 ctx.R.undecided("OPC-11", f"{op_} ({desc}): the case uses an operation outside the evaluator's fragment: {ex}")
                 continue
             ends = op_.startswith(("STORE_", "UNPACK_"))
+            if op_ in UNARY and got != want and not (isinstance(got, list) and got and got[-1] == f"{UNARY[op_]}<s1>"):
+                ctx.R.undecided("OPC-11", f"{op_}: the decoder renders the operator as {got[-1] if isinstance(got, list) and got else got!r}, neither parenthesised nor the bare spelling")
+                continue
             if got != want:
                 ctx.R.fail("OPC-11", mod, loop, f"the decoder's case for {op_} ({desc}) turns the operands {init} into {got}; the opcode's effect is {want}: the rendered target is not the expression "
                            "that was compiled (varname is wrong, not merely absent)", construct=f"{op_} ({desc}): {got[-1] if got else got} instead of {want[-1] if want else want}")
